@@ -782,7 +782,7 @@ class Infer:
     # -------------------------------------------------------------------- calls
     def ret_type(self, fi: FuncInfo, recv: T = None, call: ast.Call = None, caller: FuncInfo = None,
                  env=None) -> T:
-        if fi.node.returns is not None:
+        if fi.node.returns is not None and not getattr(self, "deep", False):
             t = self.ann_type(fi.node.returns, fi.module)
             if definite(t):
                 return t
